@@ -353,5 +353,110 @@ theorem c01m_rotate_nautical (K : Consts ℝ) (A : Arith ℝ) (v : Vec ℝ) (hv 
   rw [call_rotate_nautical, if_neg (by omega)]
   exact c01m_rotate_euler_dispatch v hv hd hT .zyx roll pitch yaw
 
+/-! #### rotate_quaternion -/
+
+/-- the rotation matrix of the quaternion `u + i𝐢 + j𝐣 + k𝐤` (hand-written; a rotation when `u²+i²+j²+k² = 1`) -/
+def quatRot (u i j k : ℝ) (p : ℝ × ℝ × ℝ) : ℝ × ℝ × ℝ :=
+  ((u ^ 2 + i ^ 2 - j ^ 2 - k ^ 2) * p.1 + 2 * (i * j - u * k) * p.2.1 + 2 * (u * j + i * k) * p.2.2,
+   2 * (i * j + u * k) * p.1 + (u ^ 2 - i ^ 2 + j ^ 2 - k ^ 2) * p.2.1 + 2 * (j * k - u * i) * p.2.2,
+   2 * (i * k - u * j) * p.1 + 2 * (j * k + u * i) * p.2.1 + (u ^ 2 - i ^ 2 - j ^ 2 + k ^ 2) * p.2.2)
+
+theorem quat_cartesian_eq (u i j k : ℝ) (p : ℝ × ℝ × ℝ) :
+    spatial_rotate_quaternion.cartesian u i j k p.1 p.2.1 p.2.2 = quatRot u i j k p := by
+  simp only [spatial_rotate_quaternion.cartesian, quatRot]
+  refine Prod.ext ?_ (Prod.ext ?_ ?_) <;> simp only <;> ring
+
+theorem normSq_quatRot (u i j k : ℝ) (hq : u ^ 2 + i ^ 2 + j ^ 2 + k ^ 2 = 1) (p : ℝ × ℝ × ℝ) :
+    normSq (quatRot u i j k p) = normSq p := by
+  have h := c10_quaternion_dot u i j k hq p p
+  simp only [Spec10.ap, quat_cartesian_eq, Spec10.dot3] at h
+  simp only [normSq]
+  linear_combination h
+
+theorem rotate_quaternion_eval (K : Consts ℝ) (A : Arith ℝ) (v : Vec ℝ) (hv : WFV v) (hd : 3 ≤ v.ty.dim)
+    (u i j k : ℝ) :
+    call evR K A "rotate_quaternion" v [.sc u, .sc i, .sc j, .sc k] =
+      .ok (.vec (spatialResult (fun k0 k1 => spatial_rotate_quaternion.eval k0 k1 u i j k) v)) := by
+  rcases wfv_cases hv with ⟨be, mom, az, a, b, rfl⟩ | ⟨be, mom, az, l, a, b, c, rfl⟩ |
+    ⟨be, mom, az, l, t, a, b, c, d, rfl⟩
+  · simp [VT.dim] at hd
+  · cases az <;> cases l <;> cases mom <;> rfl
+  · cases az <;> cases l <;> cases mom <;> rfl
+
+/-- **rotate_quaternion (unit quaternion) on 3D and 4D vectors in every storage** -/
+theorem c01m_rotate_quaternion (K : Consts ℝ) (A : Arith ℝ) (v : Vec ℝ) (hv : WFV v) (hd : 3 ≤ v.ty.dim)
+    (hT : TanOKV v) (u i j k : ℝ) (hq : u ^ 2 + i ^ 2 + j ^ 2 + k ^ 2 = 1) :
+    ∃ w, call evR K A "rotate_quaternion" v [.sc u, .sc i, .sc j, .sc k] = .ok (.vec w) ∧
+      w.ty = { v.ty with az := .xy, lon := some .z } ∧ WFV w ∧
+      denote w = (denote v).map (onSpatial (quatRot u i j k)) := by
+  refine ⟨_, rotate_quaternion_eval K A v hv hd u i j k, ?_⟩
+  refine spatial_denote _ _ (normSq_quatRot u i j k hq) v hv hd (fun l a b c h => ?_) hT
+  rw [refine_spatial_rotate_quaternion _ _ _ _ _ _ _ _ _ h, ← quat_cartesian_eq]; rfl
+
+/-- for 3D operands (no stored τ to pass through) the unit hypothesis is not needed -/
+theorem c01m_rotate_quaternion_3D (K : Consts ℝ) (A : Arith ℝ) (v : Vec ℝ) (hv : WFV v) (hd : v.ty.dim = 3)
+    (hT : TanOKV v) (u i j k : ℝ) :
+    ∃ w, call evR K A "rotate_quaternion" v [.sc u, .sc i, .sc j, .sc k] = .ok (.vec w) ∧
+      denote w = (denote v).map (onSpatial (quatRot u i j k)) := by
+  refine ⟨_, rotate_quaternion_eval K A v hv (by omega) u i j k, ?_⟩
+  rcases wfv_cases hv with ⟨be, mom, az, a, b, rfl⟩ | ⟨be, mom, az, l, a, b, c, rfl⟩ |
+    ⟨be, mom, az, l, t, a, b, c, d, rfl⟩
+  · simp [VT.dim] at hd
+  · have h := refine_spatial_rotate_quaternion az l u i j k a b c hT
+    simp only [spatialResult, denote, h, Option.map, onSpatial, ← quat_cartesian_eq]
+    rfl
+  · simp [VT.dim] at hd
+
+/-! #### rotate_axis -/
+
+/-- Rodrigues' rotation by `ang` about the direction of `u ≠ 0` (`Spec10.rod` of Props/C10 about the normalised axis) -/
+noncomputable def axisRot (u : ℝ × ℝ × ℝ) (ang : ℝ) (p : ℝ × ℝ × ℝ) : ℝ × ℝ × ℝ :=
+  Spec10.rod (u.1 / sqrt (u.1 ^ 2 + u.2.1 ^ 2 + u.2.2 ^ 2)) (u.2.1 / sqrt (u.1 ^ 2 + u.2.1 ^ 2 + u.2.2 ^ 2))
+    (u.2.2 / sqrt (u.1 ^ 2 + u.2.1 ^ 2 + u.2.2 ^ 2)) (cos ang) (sin ang) p.1 p.2.1 p.2.2
+
+theorem axisRot_eq (u : ℝ × ℝ × ℝ) (ang : ℝ) (p : ℝ × ℝ × ℝ) :
+    axisRot u ang p = Spec10.ap (spatial_rotate_axis.cartesian ang u.1 u.2.1 u.2.2) p :=
+  (c10_rotate_axis_eq_rod ang u.1 u.2.1 u.2.2 p.1 p.2.1 p.2.2).symm
+
+theorem normSq_axisRot (u : ℝ × ℝ × ℝ) (hu : 0 < normSq u) (ang : ℝ) (p : ℝ × ℝ × ℝ) :
+    normSq (axisRot u ang p) = normSq p :=
+  normSq_of_dot10 (f := axisRot u ang)
+    (fun p => by simp only [axisRot_eq]; exact c10_rotate_axis_dot ang u.1 u.2.1 u.2.2 hu p p) p
+
+theorem call_rotate_axis {S B : Type} (ev : Ev S B) (K : Consts S) (A : Arith S) (v axis : Vec S) (a : S) :
+    call ev K A "rotate_axis" v [.v axis, .sc a] =
+      if v.ty.dim < 3 then .error .attributeError else
+      if axis.ty.dim != 3 then .error .typeError else
+        dispatch ev .spatial_rotate_axis [a] none [axis, v] [v] := rfl
+
+theorem rotate_axis_eval (K : Consts ℝ) (A : Arith ℝ) (v : Vec ℝ) (hv : WFV v) (hd : 3 ≤ v.ty.dim)
+    (be' : Backend) (mom' : Bool) (az' : Az) (l' : Lon) (u1 u2 u3 ang : ℝ) :
+    call evR K A "rotate_axis" v [.v ⟨⟨be', mom', az', some l', none⟩, [u1, u2, u3]⟩, .sc ang] =
+      .ok (.vec (spatialResult (fun k l a b c => spatial_rotate_axis.eval az' l' k l ang u1 u2 u3 a b c) v)) := by
+  rcases wfv_cases hv with ⟨be, mom, az, a, b, rfl⟩ | ⟨be, mom, az, l, a, b, c, rfl⟩ |
+    ⟨be, mom, az, l, t, a, b, c, d, rfl⟩
+  · simp [VT.dim] at hd
+  · cases az' <;> cases l' <;> cases az <;> cases l <;> cases mom <;> rfl
+  · cases az' <;> cases l' <;> cases az <;> cases l <;> cases mom <;> rfl
+
+/-- **rotate_axis on 3D and 4D vectors, the axis a 3D vector, both in every storage**: the result denotes Rodrigues'
+rotation of the spatial part of `denote v` about the DENOTATION of the axis (any backend/flavor of the axis; the result
+has the backend and flavor of `v`), time component unchanged -/
+theorem c01m_rotate_axis (K : Consts ℝ) (A : Arith ℝ) (v : Vec ℝ) (hv : WFV v) (hd : 3 ≤ v.ty.dim) (hT : TanOKV v)
+    (axis : Vec ℝ) (hax : WFV axis) (hdax : axis.ty.dim = 3) (hTax : TanOKV axis) (ux uy uz : ℝ)
+    (hu : denote axis = some [ux, uy, uz]) (hpos : 0 < ux ^ 2 + uy ^ 2 + uz ^ 2) (ang : ℝ) :
+    ∃ w, call evR K A "rotate_axis" v [.v axis, .sc ang] = .ok (.vec w) ∧
+      w.ty = { v.ty with az := .xy, lon := some .z } ∧ WFV w ∧
+      denote w = (denote v).map (onSpatial (axisRot (ux, uy, uz) ang)) := by
+  rcases wfv_cases hax with ⟨be', mom', az', u1, u2, rfl⟩ | ⟨be', mom', az', l', u1, u2, u3, rfl⟩ |
+    ⟨be', mom', az', l', t', u1, u2, u3, u4, rfl⟩
+  · simp [VT.dim] at hdax
+  · refine ⟨_, rotate_axis_eval K A v hv hd be' mom' az' l' u1 u2 u3 ang, ?_⟩
+    simp only [denote, Option.some.injEq, List.cons.injEq, and_true] at hu
+    obtain ⟨rfl, rfl, rfl⟩ := hu
+    refine spatial_denote _ _ (normSq_axisRot (xOf az' u1 u2, yOf az' u1 u2, zOf az' l' u1 u2 u3) hpos ang) v hv hd (fun l a b c h => ?_) hT
+    rw [refine_spatial_rotate_axis _ _ _ _ _ _ _ _ _ _ _ hTax h, axisRot_eq]; rfl
+  · simp [VT.dim] at hdax
+
 end C01M
 end VR
